@@ -438,7 +438,8 @@ class Exporter:
             return False
         elif from_stage < to_stage:
             for child in node.children:
-                if self.is_signature_cancelled(signature_node, child, from_stage + 1, to_stage):
+                # the stage of the child, not a depth counter: rows that belong to no spine (global comments) take a stage too
+                if child.stage <= to_stage and self.is_signature_cancelled(signature_node, child, child.stage, to_stage):
                     return True
             return False
 
